@@ -268,7 +268,14 @@ def materialise(world, root):
     with open(os.path.join(proot, "zcvmod_plain.py"), "w") as f:
         f.write("# a module, not a package\n")
     for (pkg, file), rid in world.pkgfiles.items():
-        with open(os.path.join(proot, pkg, file), "w", encoding="utf-8") as f:
+        d = proot
+        for part in pkg.split("."):
+            d = os.path.join(d, part)
+            os.makedirs(d, exist_ok=True)
+            p = os.path.join(d, "__init__.py")
+            if not os.path.exists(p):
+                open(p, "w").close()
+        with open(os.path.join(d, file), "w", encoding="utf-8") as f:
             f.write(to_xml(world.docs[rid]))
     if proot not in sys.path:
         sys.path.insert(0, proot)
@@ -383,14 +390,34 @@ def _siblings_tokens(tree, path, attr):
     return out
 
 
-def edits(tree, rng=None, dense=True):
+BENIGN = {
+    "name": ["fresh-name", "Zed", "k9", "+"],
+    "attribute": ["fresh_attr", "other_attr"],
+    "type": [],
+    "extends": [],
+    "implements": [],
+    "required": ["yes", "no"],
+    "datatype": ["integer", "Integer", "zcv.dts.boomkey", "zcv.dts.wrap", "null"],
+    "keytype": ["identifier", "Basic-Key", "basic-key"],
+    "valuetype": ["string"],
+    "handler": ["h1", "H-2"],
+    "default": ["v", "7"],
+    "key": ["dk9", "D1", "d1"],
+    "prefix": ["zcv.dts", ".dts", "zcv"],
+    "package": [],
+    "src": [],
+    "file": [],
+}
+
+
+def edits(tree, rng=None, dense=True, pool=None):
     """Yield (label, edited tree).  Generic operators applied at every position:
     set / delete an attribute, duplicate / delete / move / retag a node, insert a
     new element of every kind, insert character data."""
     nodes = list(walk(tree))
     for path, n in nodes:
         for attr in ATTRS_OF.get(n["tag"], []):
-            vals = list(POOL.get(attr, []))
+            vals = list((pool or POOL).get(attr, []))
             for v in _siblings_tokens(tree, path, attr):
                 if v not in vals:
                     vals.append(v)
